@@ -68,6 +68,8 @@ pub struct NetState {
     pub delivered: Vec<(u64, SocketAddress, SocketAddress, usize, Label)>,
     pub keep_bytes: bool,
     pub next_seq: u64,
+    /// additional one-way delay of the path currently used by client idx (changes on rebinding)
+    pub extra_delay_us: BTreeMap<u32, u64>,
 }
 
 impl NetState {
@@ -222,6 +224,18 @@ impl Network for SimNet {
                     0
                 };
                 let mut base_ns = (self.base_delay_us + jitter) * 1000;
+                {
+                    // per-path latency: the path is identified by the client's current binding
+                    let sh = self.shared.lock().unwrap();
+                    let cidx = if host.role == Role::Client && !is_attacker {
+                        Some(host.idx)
+                    } else {
+                        sh.hosts.iter().find(|h| h.role == Role::Client && h.idx != u32::MAX && h.addr == dst).map(|h| h.idx)
+                    };
+                    if let Some(x) = cidx.and_then(|c| sh.extra_delay_us.get(&c)) {
+                        base_ns += x * 1000;
+                    }
+                }
 
                 // (extra_delay_ns, payload, ce, label, from-override)
                 let mut outs: Vec<(u64, Vec<u8>, bool, Label, Option<SocketAddress>)> = vec![];
